@@ -39,6 +39,7 @@ func buildProperties() []Property {
 			Rules: []RuleDef{
 				{"R-ATOM-CANONICAL", 1, ruleAtomCanonical},
 				{"R-CODE-NARROW", 5, ruleCodeNarrow},
+				{"R-CODE-VALID", 3, ruleCodeValid},
 				{"R-TAIL-CDR", 1, ruleTailCdr},
 				{"R-TRIM-CUTSET", 1, ruleTrimCutset},
 				{"R-RESOLVE-ALL", 130, ruleResolveAll("C16")},
@@ -125,11 +126,13 @@ func buildProperties() []Property {
 		},
 		{
 			ID: "C09", Title: "Database updates follow the logical update view; retract removes its match",
-			Decides:    "no delayed continuation addresses the live clause list by a position computed at call time (the mechanism behind the wrong deletions and the slice-bounds panic); calls iterate clause copies captured eagerly; the live database is written only from code statically reachable from asserta/assertz/retract/abolish/consult, the loader and the registration API. The assert built-ins compile a renamed copy of the given clause.",
+			Decides:    "no delayed continuation addresses the live clause list by a position computed at call time (the mechanism behind the wrong deletions and the slice-bounds panic); calls iterate clause copies captured eagerly; the live database is written only from code statically reachable from asserta/assertz/retract/abolish/consult, the loader and the registration API. The assert built-ins compile a renamed copy of the given clause and write the database only after the last step that can fail; permission_error(_, static_procedure/private_procedure, _) is raised only for a procedure that exists (abolish/1 of an absent one succeeds).",
 			NotDecided: "that the final database equals the sequential reference model for every history; front/end insertion order.",
 			Rules: []RuleDef{
 				{"R-BOOTSTRAP-RETRACTALL", 1, ruleBootstrapRetractall},
 				{"R-ASSERT-COPY", 1, ruleAssertCopy},
+				{"R-ASSERT-ATOMIC", 1, ruleAssertAtomic},
+				{"R-ABSENT-NOT-STATIC", 3, ruleAbsentNotStatic},
 				{"R-SNAPSHOT", 2, func(c *Ctx, r *Report) { ruleSnapshot(c, r); ruleSnapshotPointers(c, r) }},
 				{"R-SLICE-OWNER", 4, ruleSliceOwner},
 				{"R-DB-WRITERS", 6, ruleStateWriters("R-DB-WRITERS", [][2]string{{"VM", "procedures"}, {"userDefined", "clauses"}},
